@@ -1309,6 +1309,7 @@ def check_subclass_typestate(ctx):
 
 
 def check(ctx):
+    ctx.instances_floor("C15-a/isinstance", K.check_isinstance_dispatch(ctx, "C15-a", ["lena.flow.selectors", "lena.flow.filter", "lena.flow.group_by", "lena.context.include_exclude_tree"], "a subclass of Selector, str, list or tuple in a specification"), 8, "isinstance tests in the selector modules")
     check_subclass_typestate(ctx)
     check_dispatch(ctx)
     check_containment(ctx)
@@ -1324,6 +1325,7 @@ IETF = "lena/context/include_exclude_tree.py"
 GBF = "lena/flow/group_by.py"
 FLT = "lena/flow/filter.py"
 VARIANTS = [
+    M("selector-exact-list", "lena/flow/selectors.py", "        elif isinstance(selector, list):", "        elif type(selector) is list:", ["C15-a"]),
     M("selectcontext-inherits-repr", SELF, "    def __repr__(self):\n        try:\n            predicate_repr = self._predicate.__name__", "    def _repr_unused(self):\n        try:\n            predicate_repr = self._predicate.__name__", ["C15-g"]),
     M("lookup-scalar-typeerror", "lena/context/functions.py", "        elif has_default:\n            return default\n        else:\n            raise LenaKeyError(\n                \"nested dict {} not found in {}\".format(key, d)", "        elif has_default:\n            return default\n        elif key in d:\n            raise LenaTypeError(\n                \"need a dictionary, {} provided\".format(d[key])\n            )\n        else:\n            raise LenaKeyError(\n                \"nested dict {} not found in {}\".format(key, d)", ["C15-b"]),
     # dispatch
